@@ -119,6 +119,10 @@ func (r *reader) Consume(offset, maxCount int64) (int64, []message.Message, erro
 	if err != nil {
 		return OffsetInvalid, nil, err
 	}
+	if len(msgs) == 0 {
+		// the index points past the end of the log, e.g. the log file was cut short
+		return OffsetInvalid, nil, fmt.Errorf("%w: no message at indexed position", message.ErrCorrupted)
+	}
 	return msgs[len(msgs)-1].Offset + 1, msgs, nil
 }
 
